@@ -112,7 +112,12 @@ ScaledConfig(c1, c2, j) ==
 (* - INSIDE THE THRESHOLD-FREE DOMAIN: every absolute threshold on sensitivities, denominators or image values in the       *)
 (* implementation would break it.  The documented thresholds are relative (denominator: 1e-5 times its smallest positive     *)
 (* element; quotients y/ybar: unchanged by the scaling) and voxels of sensitivity exactly 0 stay at 0, so exact instances    *)
-(* with y/ybar in [1/4, 4] are inside the domain for every such j.                                                            *)
+(* with y/ybar in [1/4, 4] are inside the domain for every such j - except for ONE documented absolute number: the quotient   *)
+(* clamp of divide_and_truncate ("set quotient to min(numerator/denominator, max_quotient)", max_quotient = 10^4), which the  *)
+(* implementation applies to y/(P lambda + a) and to (P 1)/(y norm^2), i.e. to quotients WITHOUT the efficiencies: they are   *)
+(* multiplied by 2^-j and 2^-2j.  On the exact instances y/(P lambda + a) <= 4 and (P 1)/y <= 1, so the domain is j >= -6     *)
+(* (4 * 2^6 and 2^12 < 10^4); towards small efficiencies / large images (j > 0, the calibration-factor case) there is no limit. *)
+EffScaleDomain == -6..40
 ScaledConfigEff(c1, c2, j) ==
   /\ ~c1.prior /\ ~c2.prior /\ c2.N = c1.N /\ c2.startSubset = c1.startSubset
   /\ << c2.aN, c2.aK, c2.gN, c2.gK >> = << c1.aN, c1.aK, c1.gN, c1.gK >>
